@@ -989,8 +989,8 @@ mod docs {
 
 // ---------------------------------------------------------------------------------------------
 // `gen` mode: small generated programs with random layout and comments, outside the open finding classes
-// (no type declarations, no `match`, untyped `fn` parameters, no record patterns/types, `if` conditions in
-// parentheses, no empty lambda parameter lists, no comment directly after `,` `{` `}`)
+// (no comment directly after `,` `{` `}`: finding F14; every other former class — type declarations, `match`, typed
+// parameters, record patterns/types, unparenthesised `if` conditions, empty lambda parameter lists — is repaired and generated)
 
 mod progs {
     use super::Rng;
@@ -1094,7 +1094,7 @@ mod progs {
             if d == 0 {
                 return self.lit();
             }
-            match self.r.below(16) {
+            match self.r.below(18) {
                 0 | 1 => self.lit(),
                 2 | 3 | 4 => {
                     let l = self.expr(d - 1, ind);
@@ -1158,6 +1158,25 @@ mod progs {
                     let n = 1 + self.r.below(3) as usize;
                     let fs: Vec<String> = (0..n).map(|i| format!("k{} = {}", i, self.expr(d - 1, ind))).collect();
                     format!("{{{}}}", fs.join(", "))
+                }
+                15 => {
+                    // `match` on a number / on a declared variant type; arms separated by commas or line breaks
+                    let scrut = self.id();
+                    let n = 1 + self.r.below(3) as usize;
+                    let mut arms = String::new();
+                    for i in 0..n {
+                        let pat = match self.r.below(4) {
+                            0 => format!("One({})", self.id()),
+                            1 => format!("Two(({},{}{}))", self.id(), self.sp(), self.id()),
+                            2 => "Three".to_string(),
+                            _ => format!("{i}"),
+                        };
+                        let body = self.expr(d - 1, ind + 2);
+                        let sep = if self.r.chance(1, 2) { ",\n" } else { "\n" };
+                        arms.push_str(&format!("{}{pat}{}=>{}{body}{sep}", " ".repeat(ind + 2), self.sp(), self.sp()));
+                    }
+                    let last = self.expr(d - 1, ind + 2);
+                    format!("match {scrut} {{\n{arms}{}_ => {last}\n{}}}", " ".repeat(ind + 2), " ".repeat(ind))
                 }
                 _ => {
                     let body = self.stmts(d - 1, ind + 2);
@@ -1231,6 +1250,14 @@ mod progs {
         }
         pub fn program(&mut self) -> String {
             let mut s = String::new();
+            // type declarations (the variant type the `match` arms refer to, aliases, recursive types)
+            s.push_str("type E = One(float) | Two((float,float)) | Three\n");
+            if self.r.chance(1, 3) {
+                s.push_str(&format!("type alias Freq{}={}{}\n", self.sp(), self.sp(), self.ty(1)));
+            }
+            if self.r.chance(1, 4) {
+                s.push_str("type rec List = Nil | Cons(float, List)\n");
+            }
             let n = 1 + self.r.below(4) as usize;
             for i in 0..n {
                 let d = 1 + self.r.below(4) as usize;
